@@ -15,7 +15,10 @@ TAINTED = {
     ("mashumaro/core/meta/code/builder.py", "build"): {"alias", "alias or fname"},
     ("mashumaro/core/meta/types/pack.py", "pack_typed_dict"): {"key"},
     ("mashumaro/core/meta/types/unpack.py", "unpack_typed_dict"): {"key"},
-    ("mashumaro/core/meta/types/unpack.py", "_add_body"): {"discriminator.field", "self.discriminator.field"},
+    # (_add_body of the discriminated-union builder and of the Literal builder)
+    ("mashumaro/core/meta/types/unpack.py", "_add_body"): {"discriminator.field", "self.discriminator.field", "literal_value.name"},
+    # the NAME of an enum member used in a Literal (arbitrary for functional-API enums)
+    ("mashumaro/core/meta/types/pack.py", "pack_literal"): {"literal_value.name"},
 }
 
 
